@@ -62,6 +62,19 @@ CLAIMS["C18"] = dict(
     technique="information-flow restriction on the response object + accumulator typestate dataflow over the CFG + dominance checks in the field parser",
     ref="3/C18",
 )
+CLAIMS["C06"] = dict(
+    text="Decides, by evaluating the code's own status predicates over the whole finite domain 100..599 (the predicate ASTs are "
+    "interpreted by the checker, nothing is run): (1) the bundled transport raises for exactly the complement of 200..299 and returns "
+    "only for 2xx - control flow after the send is followed per status code; (2) the class it raises is a ClientError subclass for "
+    "400..499 and a ServerError subclass for 500..599 (class hierarchy read from core/exceptions.py), and declared 4xx/5xx arms of the "
+    "generated dispatch never raise the bare base class; (3) on every path of the dispatch *generator* the wildcard `case _` arm and "
+    "every non-2xx arm are filled with a raise and no return (typestate over emitted lines); (4) alias classes take ClientError for "
+    "exactly 400..499 and ServerError for 500..599 in both alias generators, and every status for which the handler raises an alias "
+    "has an alias class; (5) errors carry status_code and response (HTTPError.__init__, alias __init__ template, raise sites). "
+    "Behaviour of arbitrary custom transports beyond 'returns the response unraised' is not modelled.",
+    technique="abstract evaluation of status predicates over the finite status domain + per-status CFG simulation + emitted-line typestate on the generator's CFG + sibling agreement of alias generators",
+    ref="3/C06",
+)
 
 NOT_APPLICABLE = {}
 
